@@ -38,7 +38,7 @@ RULE = ("each run draws a body length (dense around 0, 1, 2^14+-2, 2^15, 2^16+-2
         "sizes and ciphertext cuts, and serves it over BOTH TLS backends. distinct = distinct "
         "(length, reader, buffer, cut-signature); non-trivial = body >= 1 byte and the reader or "
         "the network was not the default")
-PROBES = ["backpressure_pause_writing", "body_ge_16k", "body_ge_64k", "body_ge_6MiB", "slow_reader", "bursty_reader",
+PROBES = ["backpressure_pause_writing", "body_ge_16k", "body_ge_64k", "body_ge_6MiB", "half_closing_reader", "nauyaca_client_as_reader", "slow_reader", "bursty_reader",
           "ciphertext_cut", "static_file", "start_server", "very_slow_reader_over_30s"]
 COMPONENTS = {
     "real": ["nauyaca.server.protocol._send_response", "nauyaca.server.tls_protocol (TLS pump)",
@@ -128,6 +128,30 @@ def serve_once(ch, backend, cfg, scratch):
                     return r
                 url = f"gemini://{HOST}/body"
             server = await sw.start_protocol_server(sim, backend, handler)
+        if cfg["reader"] == "client":
+            # the repo's own client as the reader (cap set a few bytes above the body)
+            from nauyaca.client import protocol as cproto
+            from nauyaca.client.session import GeminiClient
+            old_cap = cproto.MAX_RESPONSE_BODY_SIZE
+            cproto.MAX_RESPONSE_BODY_SIZE = len(body_bytes) + cfg["cap_slack"]
+            try:
+                cl = GeminiClient(timeout=60.0, trust_on_first_use=False)
+                try:
+                    r = await cl.get(url)
+                    b = r.body if r.body is not None else b""
+                    if isinstance(b, str):
+                        b = b.encode("utf-8")
+                    out["client_rx"] = f"{r.status} {r.meta}\r\n".encode() + b
+                except Exception as e:  # noqa
+                    out["client_rx"] = b""
+                    out["client_err"] = repr(e)[:200]
+            finally:
+                cproto.MAX_RESPONSE_BODY_SIZE = old_cap
+            if server is not None:
+                server.close()
+            if srv_task is not None:
+                srv_task.cancel()
+            return
         pol = DrawnPolicy(ch, "s2c", cfg["s2c_mode"], latency=0.001,
                           delays=[0.001, 0.0, 0.003], max_cuts=3)
         ep = raw_connect(net, HOST, 1965, c2s=WholePolicy(0.001), s2c=pol,
@@ -137,8 +161,12 @@ def serve_once(ch, backend, cfg, scratch):
             kw = dict(read_rate=cfg["read_rate"], read_interval=cfg["read_interval"])
         elif cfg["reader"] == "bursty":
             kw = dict(read_pause_until=cfg["pause_until"])
-        peer = RawPeer(net, ep, [("send", url.encode() + b"\r\n")], tls_ctx=fx.client_ctx(),
-                       name="reader", **kw)
+        pscript = [("send", url.encode() + b"\r\n")]
+        if cfg.get("early_close"):
+            # the reader says goodbye (close_notify, FIN) right behind its request and
+            # then only reads
+            pscript.append(("close",))
+        peer = RawPeer(net, ep, pscript, tls_ctx=fx.client_ctx(), name="reader", **kw)
         t_end = cfg["deadline"]
         while net.now < t_end:
             await asyncio.sleep(0.25)
@@ -158,6 +186,10 @@ def serve_once(ch, backend, cfg, scratch):
         raise sim.error
     if status != "done":
         raise RuntimeError(f"C06 world ended with status {status}")
+    if cfg["reader"] == "client":
+        return {"rx": out.get("client_rx", b""), "eof": True, "resp": captured.get("resp"),
+                "tls_error": out.get("client_err"), "now": net.now, "sig": sim.signature(),
+                "digest": sim.digest(), "deliveries": 0, "exc": sim.loop.exceptions[:3]}
     peer = out["peer"]
     return {"rx": bytes(peer.rx_plain), "eof": peer.eof_seen(), "resp": captured.get("resp"),
             "tls_error": peer.tls_error, "now": net.now, "sig": sim.signature(),
@@ -181,12 +213,15 @@ def run_one(ch):
         s = ("€uro line\n" * (n // 11 + 1)).encode()[:n].decode("utf-8", "ignore")
         body = (s, s.encode(), "text/gemini" if source == "static" else "text/plain")
         n = len(body[1])
-    reader = ch.pick("reader", ["eager", "slow", "bursty"], [5, 3, 2])
+    reader = ch.pick("reader", ["eager", "slow", "bursty", "client"], [5, 3, 2, 1])
+    if reader == "client" and n > (2 << 20):
+        reader = "eager"
     cap = ch.pick("cap", [65536, 1024, 4096, 16384, 262144, 1048576])
     very_slow = False
     cfg = {"body": body, "source": source, "reader": reader, "cap_s2c": cap,
            "s2c_mode": ch.choose("s2cmode", 2, [3, 2]),
            "async_handler": bool(ch.choose("async", 2)),
+           "cap_slack": ch.pick("capslack", [0, 1, 30, 5000]),
            "deadline": 60.0}
     # the link itself (cap bytes per ~3 ms round) must not be what makes the transfer
     # take longer than asyncio's 30 s TLS shutdown timer (that is the slow-reader
@@ -211,6 +246,12 @@ def run_one(ch):
         cfg["pause_until"] = ch.pick("pause", [0.5, 3.0, 12.0])
         cfg["deadline"] = 80.0
 
+    if reader == "eager" and n <= 200000 and (source == "static" or
+                                              (source == "handler" and not cfg["async_handler"])) \
+            and ch.chance("early_close", 0.25):
+        # only where the answer cannot depend on timing: synchronous handler, no chain
+        cfg["early_close"] = True
+        res.stats["half_closing_reader"] += 1
     outs = {}
     for backend in ("stdlib", "pyopenssl"):
         outs[backend] = serve_once(ch, backend, cfg, fresh_dir("c06"))
@@ -252,6 +293,8 @@ def run_one(ch):
         res.stats["slow_reader"] += 1
     if reader == "bursty":
         res.stats["bursty_reader"] += 1
+    if reader == "client":
+        res.stats["nauyaca_client_as_reader"] += 1
     if very_slow:
         res.stats["very_slow_reader_over_30s"] += 1
     if cfg["s2c_mode"]:
